@@ -55,6 +55,7 @@ def rw_merge(chk, repo):
     of their read-write flags (an output region is reserved as soon as one
     device writes)"""
     chk.doc("R18.5", "read-write flags of a shared terminal are OR-ed")
+    device_flags(chk, repo)
     sym = C + "SyncGroupBase.__init__"
     f = repo.func(sym)
     chk.analysed(sym)
@@ -94,6 +95,57 @@ def rw_merge(chk, repo):
            "; ".join(bad[:2]) + ": a terminal shared by a writing and a "
            "read-only device gets no output region, and the writer's "
            "variables have no place in the frame")
+
+
+def device_flags(chk, repo):
+    """R18.5, one step earlier: Device.get_terminals reports a terminal as
+    read-write as soon as one of the device's variables on it is an output
+    (by abstract execution on devices with several variables per terminal,
+    in every order)"""
+    import itertools
+    sym = C + "Device.get_terminals"
+    dc = repo.cls(C + "Device")
+    f = dc.methods.get("get_terminals")
+    need(f is not None, f"{sym}: vanished")
+    chk.analysed(sym)
+    pvc = repo.cls(C + "PacketVar")
+    stc = repo.cls(C + "Struct")
+    smc = repo.cls("ebpfcat.ethercat.SyncManager")
+    mem = Evaluator(repo, smc.module).enum_members(smc)
+    OUT, IN = mem["OUT"], mem["IN"]
+    t1, t2 = (Obj(None, {"position": p_, "name": f"t{p_}"}) for p_ in (5, 2))
+    vars_ = [("a", pvc, t1, OUT), ("b", pvc, t1, IN), ("c", stc, t1, IN),
+             ("d", pvc, t2, IN), ("e", stc, t2, IN)]
+    want = {t1: True, t2: False}
+    bad = []
+    rows = 0
+    for order in itertools.permutations(range(len(vars_))):
+        rows += 1
+        me = Obj(dc, {"unrelated": 5})
+        for i in order:
+            nm, ci, t, sm = vars_[i]
+            me.fields[nm] = Obj(ci, {"terminal": t, "sm": sm})
+        try:
+            got = Evaluator(repo, f._module, dc, funcs={
+                "defaultdict": ("hook", _defaultdict)}).call_function(
+                f, [me], cls=dc)
+        except (Unknown, Raised) as e:
+            raise AnalysisError(f"{sym}: cannot be evaluated: {e}")
+        if not isinstance(got, dict) or {k: bool(v) for k, v in got.items()
+                                         } != want:
+            shown = {k.fields["name"]: v for k, v in got.items()} \
+                if isinstance(got, dict) else got
+            bad.append(f"variables declared in order "
+                       f"{[vars_[i][0] for i in order]}: {shown}")
+            if len(bad) > 3:
+                break
+    chk.ob("R18.5", sym, f"a terminal is read-write as soon as one variable "
+           f"of the device on it is an output ({rows} orders of five "
+           f"variables on two terminals, by abstract execution)", not bad, f,
+           "; ".join(bad[:2]) + (": the flag of whichever variable comes "
+                                 "last decides - no output region is "
+                                 "reserved for the one that is written"
+                                 if bad else "") or "t5: True, t2: False")
 
 
 class _DD(dict):
